@@ -49,6 +49,11 @@ def persistStep (st : PersistDrvSt) (op : String) (a : KV) : PersistDrvSt × Str
       -- saves of different fans' entries in flight at once: each takes effect as if alone (isolation per fan and kind,
       -- C14_isolation_run); the ids `par<i>` are used by nothing else, so the store the later ops see is unchanged
       (st, "ok failed=0 bad=0")
+    | "ps.delsave" =>
+      -- the deletion of the only entry and the save of another fan's entry, both queued behind the database file lock:
+      -- whichever runs first, each takes effect as if alone (isolation per fan, C14_isolation_run); the ids are used by
+      -- nothing else and are gone again when the op ends
+      (st, "ok failed=0 bad=0")
     | "ps.initbusy" =>
       -- `Init()` of a second instance while the database file is held by another handle: Init only makes sure the
       -- directory exists; the store is untouched
